@@ -215,16 +215,12 @@ def cycles_of(out):
 
 
 # ---------------------------------------------------------------- oracle (the property on the implementation's trace)
-def _has_cycle(edges, live):
+def _cyclic(edges):
     color = {}
 
     def dfs(u):
         color[u] = 1
         for v in edges.get(u, ()):
-            if v == u:
-                return True
-            if v not in live and v not in edges:
-                continue
             if color.get(v) == 1:
                 return True
             if color.get(v) is None and dfs(v):
@@ -234,7 +230,32 @@ def _has_cycle(edges, live):
     return any(color.get(u) is None and dfs(u) for u in list(edges))
 
 
+def _edges(dicts, requested):
+    """links of the instances that exist: the requested keys and whatever they reach (on-demand instances are
+    bound to the dictionary elements of their key as well)"""
+    e, todo, seen = {}, list(requested), set()
+    while todo:
+        k = todo.pop()
+        if k in seen:
+            continue
+        seen.add(k)
+        for w in (1, 2):
+            j = dicts[w].get(k)
+            if j is not None:
+                e.setdefault(k, set()).add(j)
+                todo.append(j)
+    return e
+
+
 def oracle(prop, case, out):
+    """C01 on the trace of the real node, no model involved:
+       (a) no user node of a child runs twice in an engine cycle (pauses and re-entries included);
+       (b) a child's comb never runs before the comb of a child it reads through mesh_ref in the same cycle, the
+           value it reads is that child's current value, and at the end of every cycle every reader holds the
+           current value of what it references (a reference that ticked re-evaluates its readers);
+       (c) the run stops with the dependency-cycle error exactly when the link graph of the requested keys is
+           cyclic (a cycle that only exists between the old and the new links of one engine cycle is reported
+           too: `transient_cycle_report`, informational)."""
     if isinstance(out, dict):
         return [("crash", str(out)[:200])]
     fails = []
@@ -242,18 +263,25 @@ def oracle(prop, case, out):
     cyc, err = cycles_of(out)
     if err and err[0] == 18:
         return [("build_error", "")]
+    if h["start"] < 1 or h["end"] <= h["start"] or h["end"] > 1000000:
+        return [] if err == (19, 1) else [("run_error", "window not rejected")]
     dicts = [{}, {}, {}]
+    requested = set()
     tick_t = [{}, {}, {}]              # (which, key) -> last time the source element ticked
     cur_out = {}                       # key -> last comb result (the element's current value)
     last_read = {}                     # key -> {w: (target, valid, value)} of its latest comb evaluation
     bycycle = {c["t"]: c for c in cyc}
-    times = sorted(set(h["ops"]) | set(bycycle))
-    stopped = False
+    err_t = cyc[-1]["t"] if (cyc and err and err[0] == 19) else None
+    times = sorted(t for t in set(h["ops"]) | set(bycycle) if h["start"] <= t <= h["end"])
+    cyclic_at = None
+    prev_edges = {}
     for t in times:
-        if t < h["start"] or t > h["end"]:
-            continue
         for (which, op, k, v) in h["ops"].get(t, []):
-            if which > 2:
+            if which == 3:
+                if op == 1:
+                    requested.add(k)
+                elif op == 2:
+                    requested.discard(k)
                 continue
             if op == 1:
                 dicts[which][k] = v
@@ -261,23 +289,32 @@ def oracle(prop, case, out):
             elif op == 2 and k in dicts[which]:
                 del dicts[which][k]
                 tick_t[which][k] = t
+        if not h["explicit"]:
+            requested = set(dicts[0]) | set(dicts[1]) | set(dicts[2])
+        edges = _edges(dicts, requested)
+        if cyclic_at is None and _cyclic(edges):
+            cyclic_at = t
+        if err_t == t and err[1] == 3 and cyclic_at is None:
+            both = {k: set(v) | prev_edges.get(k, set()) for k, v in edges.items()}
+            for k, v in prev_edges.items():
+                both.setdefault(k, set()).update(v)
+            fails.append(("transient_cycle_report" if _cyclic(both) else "spurious_cycle_report",
+                          "t=%d dependency cycle reported; links at the end of the cycle %s" % (t, sorted((k, sorted(v)) for k, v in edges.items()))))
+        prev_edges = edges
         c = bycycle.get(t)
         if c is None:
             continue
         live = set(c["sink"].get(35, []))
-        removed = set(c["sink"].get(31, []))
-        for k in removed:
+        for k in c["sink"].get(31, []):
             cur_out.pop(k, None)
             last_read.pop(k, None)
-        nprobe, ncomb, comb_at, sub_at = {}, {}, {}, {}
+        nprobe, ncomb, comb_at = {}, {}, {}
         for i, e in enumerate(c["ev"]):
             code, k = e[0], e[1]
             if code == 12:
                 nprobe[k] = nprobe.get(k, 0) + 1
                 if nprobe[k] == 2:
                     fails.append(("evaluated_twice", "t=%d key=%d probe ran twice" % (t, k)))
-            elif code == 15:
-                sub_at.setdefault(k, []).append(i)
             elif code == 13:
                 ncomb[k] = ncomb.get(k, 0) + 1
                 if ncomb[k] == 2:
@@ -285,7 +322,6 @@ def oracle(prop, case, out):
                 vv, v, d1v, d1, d2v, d2, r = e[2:9]
                 if r != comb(v, d1, d2):
                     fails.append(("value_mismatch", "t=%d key=%d out %d != f(%d,%d,%d)" % (t, k, r, v, d1, d2)))
-                # what it read must be the referenced element's value at that moment
                 for w, (dv, d) in ((1, (d1v, d1)), (2, (d2v, d2))):
                     j = dicts[w].get(k)
                     if dv and j is not None and j in cur_out and cur_out[j] != d:
@@ -293,16 +329,14 @@ def oracle(prop, case, out):
                 comb_at[k] = i
                 cur_out[k] = r
                 last_read[k] = {1: (dicts[1].get(k), d1v, d1), 2: (dicts[2].get(k), d2v, d2)}
-        # (b) never before a node whose output it reads through the reference has had its turn
         for k, i in comb_at.items():
             for w in (1, 2):
                 j = dicts[w].get(k)
                 if j is not None and j in comb_at and comb_at[j] > i:
-                    own = any(tick_t[x].get(j) == t for x in (0, 1, 2))
-                    kind = "dependency_not_settled_own_tick" if own else "dependency_not_settled"
-                    fails.append((kind, "t=%d key %d evaluated (event %d) before key %d (event %d) which it reads through link%d"
+                    fails.append(("dependency_not_settled", "t=%d key %d evaluated (event %d) before key %d (event %d) which it reads through link%d"
                                   % (t, k, i, j, comb_at[j], w)))
-        # end of cycle: every reader holds the current value of what it references
+        if err_t == t:
+            continue                       # the cycle was abandoned by the exception
         allv = c["sink"].get(34, {})
         for k in sorted(live):
             lr = last_read.get(k)
@@ -311,74 +345,41 @@ def oracle(prop, case, out):
             for w in (1, 2):
                 j = dicts[w].get(k)
                 tgt, dv, d = lr[w]
-                if j is None or j != tgt:
-                    if j is not None and j != tgt and tick_t[w].get(k) == t:
-                        fails.append(("retarget_not_reevaluated", "t=%d key %d link%d now %d but it last read key %s" % (t, k, w, j, tgt)))
+                if j is None:
+                    continue
+                if j != tgt:
+                    if tick_t[w].get(k) == t:
+                        fails.append(("retarget_not_reevaluated", "t=%d key %d link%d now %d but its comb last read key %s" % (t, k, w, j, tgt)))
+                        lr[w] = (j, dv, d)
                     continue
                 if j in allv and (not dv or d != allv[j]):
-                    late = j in comb_at and k in comb_at and comb_at[j] > comb_at[k]
-                    own = any(tick_t[x].get(j) == t for x in (0, 1, 2))
-                    kind = "stale_mesh_read" if not late or own else "stale_mesh_read_late_dependency"
-                    fails.append((kind, "t=%d key %d holds %s of key %d (link%d) whose value is %d at the end of the cycle"
+                    fails.append(("stale_mesh_read", "t=%d key %d holds %s of key %d (link%d) whose value is %d at the end of the cycle"
                                   % (t, k, d if dv else "nothing", j, w, allv[j])))
+                    lr[w] = (j, 1, allv[j])          # reported once, where it arises
         for k, v in allv.items():
             if k in cur_out and cur_out[k] != v:
                 fails.append(("output_mismatch", "t=%d key %d element %d but its comb wrote %d" % (t, k, v, cur_out[k])))
-    # (c) dependency cycles are reported (and only they)
     if err and err[0] == 19:
-        if err[1] == 3:
-            edges = {}
-            for w in (1, 2):
-                for k, j in dicts[w].items():
-                    edges.setdefault(k, set()).add(j)
-            # the throw happens in the cycle whose ops were applied last before the error: recompute on that prefix
-            fails += _cycle_check(h, cyc, True)
-        elif err[1] == 4:
-            fails.append(("failed_to_settle", "mesh_ failed to settle within the cycle"))
-        else:
+        if err[1] == 4:
+            fails.append(("failed_to_settle", "mesh_ failed to settle within the cycle (t=%s)" % err_t))
+        elif err[1] != 3:
             fails.append(("run_error", "exception code %d" % err[1]))
-    else:
-        fails += _cycle_check(h, cyc, False)
+        elif cyclic_at is not None and err_t != cyclic_at:
+            fails.append(("cycle_not_reported", "link graph cyclic from t=%d, error reported at t=%s" % (cyclic_at, err_t)))
+    elif cyclic_at is not None:
+        fails.append(("cycle_not_reported", "link graph of the requested keys is cyclic at t=%d but the run went on" % cyclic_at))
     return fails
 
 
-def _cycle_check(h, cyc, reported):
-    """link graph (as of each engine cycle) has a dependency cycle <=> the run stops there with code 3"""
-    dicts = [{}, {}, {}]
-    seen_t = [c["t"] for c in cyc]
-    last_t = seen_t[-1] if seen_t else None
-    out = []
-    for t in sorted(h["ops"]):
-        if t < h["start"] or t > h["end"]:
-            continue
-        for (which, op, k, v) in h["ops"][t]:
-            if which > 2:
-                continue
-            if op == 1:
-                dicts[which][k] = v
-            elif op == 2:
-                dicts[which].pop(k, None)
-        edges = {}
-        for w in (1, 2):
-            for k, j in dicts[w].items():
-                edges.setdefault(k, set()).add(j)
-        cyclic = _has_cycle(edges, set())
-        if cyclic:
-            if not reported:
-                out.append(("cycle_not_reported", "t=%d link graph %s is cyclic but the run went on" % (t, sorted((k, sorted(v)) for k, v in edges.items()))))
-            return out
-        if reported and last_t is not None and t >= last_t and t == max(x for x in h["ops"] if h["start"] <= x <= h["end"]):
-            out.append(("spurious_cycle_report", "dependency cycle reported but the link graph is acyclic at every cycle"))
-    if reported and not out:
-        # reported although no prefix of the op history is cyclic
-        out.append(("spurious_cycle_report", "dependency cycle reported but the link graph is acyclic at every cycle"))
-    return out
+PROP_KINDS = {"C01": {"evaluated_twice", "dependency_not_settled", "stale_mesh_read", "retarget_not_reevaluated",
+                      "wrong_mesh_read", "value_mismatch", "output_mismatch", "cycle_not_reported",
+                      "spurious_cycle_report", "failed_to_settle", "run_error", "build_error"}}
+# `transient_cycle_report` is informational (docs/notes-mesh.md, observation O1)
 
 
-PROP_KINDS = {"C01": {"evaluated_twice", "dependency_not_settled", "dependency_not_settled_own_tick", "stale_mesh_read",
-                      "stale_mesh_read_late_dependency", "retarget_not_reevaluated", "wrong_mesh_read", "value_mismatch",
-                      "output_mismatch", "cycle_not_reported", "spurious_cycle_report", "failed_to_settle", "run_error",
-                      "build_error"}}
+def agree(case, impl_out, model_out):
+    # [[99]]: the model met a re-creation of an instance whose slot is still pending erase (not modelled)
+    return model_out == [[99]] or impl_out == model_out
 
 
 def nontrivial(case, out):
